@@ -839,6 +839,17 @@ def main():
                 for combo in combos:
                     jobs.append(('gen', idx, spec, pl, False, combo))
                     idx += 1
+    if ck.want('gen'):
+        # targets without a single source in the source tree (their own C file is a custom-target / generator() output)
+        for xi, spec in enumerate(pg.allgen_specs() + pg.pch_specs()[:6]):
+            for oi, own in enumerate(('own_ct', 'own_gen')):
+                for pi, pl in enumerate(('root', 'allsub')):
+                    if not ck.thorough and (xi + oi + ck.seed) % 2 != pi:
+                        continue
+                    combos = OPTION_COMBOS[::3] if ck.thorough else [OPTION_COMBOS[(xi * 5 + oi + ck.seed) % len(OPTION_COMBOS)]]
+                    for combo in combos:
+                        jobs.append(('gen', idx, spec, pl + '+' + own, False, combo))
+                        idx += 1
     if ck.want('neg'):
         src, cases = collision_cases()
         for name, rd, sd, layout in cases:
